@@ -316,6 +316,41 @@ fn beyond_i64(ctx: &Ctx) {
     ctx.put("beyond_i64_literal_builds", json!(n));
 }
 
+/// The most negative 64-bit number cannot be written as a literal, only worked out (`1 << 63`, `~0x7fff...`,
+/// `-9223372036854775807 - 1`): it fits `.dq` and nothing narrower.
+fn most_negative_value(ctx: &Ctx) {
+    let mut n = 0u64;
+    for seg in [Seg::Code, Seg::Eeprom] {
+        for (dir, width) in [(".db", 1usize), (".dw", 2), (".dd", 4), (".dq", 8)] {
+            for text in ["1 << 63", "~0x7fffffffffffffff", "-9223372036854775807 - 1", "(-9223372036854775807 - 1) + 0", "most_negative", "MOST_NEGATIVE | 0"] {
+                for tail in ["", ", 1"] {
+                    let src = format!(".equ most_negative = -9223372036854775807 - 1\n{}\n\t{} {}{}\n", seg.directive(), dir, text, tail);
+                    let out = fw::build_str(&src);
+                    ctx.eval(1);
+                    n += 1;
+                    let fits = width == 8;
+                    let ok = match &out {
+                        Outcome::Panic(_) => false,
+                        Outcome::Err(_) => !fits,
+                        Outcome::Ok(o) => {
+                            let img = if seg == Seg::Code { &o.code } else { &o.eeprom };
+                            fits && img.get(..8) == Some(&i64::MIN.to_le_bytes()[..])
+                        }
+                    };
+                    if !ok {
+                        ctx.violation(
+                            format!("data/{}/{}/most-negative-value", if fits { "fitting-values-rejected-or-wrong" } else { "out-of-range-accepted" }, dir.trim_start_matches('.')),
+                            format!("`{} {}` (-2^63, {}): {}", dir, text, if fits { "fits" } else { "does not fit" }, fw::clip(&format!("{:?}", out.brief()), 120)),
+                            json!({"source": src, "beyond_i64": !fits, "macro_arguments": fits, "segment": seg.directive(), "expect_image": if fits { Some(fw::hex(&{ let mut b = i64::MIN.to_le_bytes().to_vec(); if !tail.is_empty() { b.extend(1i64.to_le_bytes()); } b }, 64)) } else { None }, "observed": out.brief()}),
+                        );
+                    }
+                }
+            }
+        }
+    }
+    ctx.put("most_negative_value_builds", json!(n));
+}
+
 /// Labels are numbers like any other: the position of a label that does not fit the element fails the build,
 /// one that fits is stored - a bare name, a name in an expression, in every segment, with and without a device.
 fn label_values(ctx: &Ctx) {
@@ -422,6 +457,7 @@ fn through_macro_arguments(ctx: &Ctx) {
 pub fn run(ctx: &Ctx) -> i32 {
     grid(ctx);
     beyond_i64(ctx);
+    most_negative_value(ctx);
     label_values(ctx);
     through_macro_arguments(ctx);
     let n = ctx.tier.pick(5_000u64, 5_000_000u64);
